@@ -54,6 +54,8 @@ type Prog struct {
 	callSiteCache map[*ssa.Function][]ssa.CallInstruction
 	valueUse map[*ssa.Function]bool
 	ifaceMethodNames map[string]bool
+	wrapCache map[*ssa.Function]wrapInfo
+	baseline  *symbols // inventory of the confirmed tree (rename.go)
 	keySubst map[ssa.Value]ssa.Value // pureKey renders a key under this substitution (first-iteration specialisation of φs)
 	RenameNotes []string // renamed entities mapped back to their baseline names (rename.go)
 	Fixture bool // analysing /verif/fixtures: engines use the fixture tables
